@@ -13,7 +13,7 @@ def _closure_stmt(view, block, closure_path):
     return None
 
 
-def resolve(model, chain, view, origins, depth=0):
+def resolve(model, chain, view, origins, depth=0, taint=False):
     """Resolve `param` origins of `view` (the callee at the end of `chain`) to origins in the
     frames above it, up to the root. Closure upvars are resolved to the parent's operands;
     the value argument of a closure given to Item/Map::update is the loaded item."""
@@ -29,8 +29,8 @@ def resolve(model, chain, view, origins, depth=0):
             if t["k"] != "call" or o.a - 1 >= len(t["args"]):
                 out.add(o)
                 continue
-            sub = cv.origins_of_operand(t["args"][o.a - 1], proj=o.proj, at=cv.at_term(b))
-            out |= resolve(model, chain[:-1], cv, sub, depth + 1)
+            sub = cv.origins_of_operand(t["args"][o.a - 1], proj=o.proj, at=cv.at_term(b), taint=taint)
+            out |= resolve(model, chain[:-1], cv, sub, depth + 1, taint)
         elif kind == "closure":
             st = _closure_stmt(cv, b, view.path)
             if st is None:
@@ -42,8 +42,8 @@ def resolve(model, chain, view, origins, depth=0):
                     ops = st["rv"]["ops"]
                     if idx < len(ops):
                         i = cv.blocks[b]["s"].index(st)
-                        sub = cv.origins_of_operand(ops[idx], proj=o.proj[1:], at=(b, i))
-                        out |= resolve(model, chain[:-1], cv, sub, depth + 1)
+                        sub = cv.origins_of_operand(ops[idx], proj=o.proj[1:], at=(b, i), taint=taint)
+                        out |= resolve(model, chain[:-1], cv, sub, depth + 1, taint)
                         continue
                 out.add(o)
             else:
